@@ -284,6 +284,12 @@ Quiet == action \in {"", "end"}      \* between actions: every statement of the 
 C06_Together ==
   (Quiet /\ ~failed) => \A i \in Dec : (IsVictimEvict(i) /\ D[i].mdact \in {"reclaim", "preempt"}) =>
      \E k \in Dec : (BindAny(k) \/ Piped(k)) /\ D[k].stmt = D[i].stmt /\ JobOf(D[k].p) = D[i].pre
+\* the same under API failures, for the evictions that went through: when the API refuses another eviction of the
+\* statement (Commit undoes that one and goes on) or a bind of the preemptor, the pods that WERE evicted still come
+\* with the placement of the workload they were evicted for - nothing is evicted for nothing
+C06_TogetherWhenCallsFail ==
+  (Quiet /\ failed) => \A i \in Dec : (IsVictimEvict(i) /\ EvictOK(i) /\ D[i].mdact \in {"reclaim", "preempt"}) =>
+     \E k \in Dec : (BindAny(k) \/ Piped(k)) /\ D[k].stmt = D[i].stmt /\ JobOf(D[k].p) = D[i].pre
 \* consolidation evicts a pod only if the same statement re-places it on another node
 C06_Consolidation ==
   (Quiet /\ ~failed) => \A i \in Dec : (IsVictimEvict(i) /\ D[i].mdact = "consolidation") =>
